@@ -85,7 +85,7 @@ func srp(s int64, clock int64, extraClient bool) (secrets, string) {
 
 func main() {
 	run := vr.New("C19", "exploration")
-	run.Rule("environment alphabet: global math/rand seed in {1, 2, 0x5eed} x pinned clock in {T0, T0+1s} x scenario {key exchange, key exchange after creating another client, SRP answer, SRP answer after creating a client} x fault {none, the 1st / 2nd / 3rd read of the OS random source fails}; each environment is run twice and all runs are compared pairwise; a secret that repeats is a violation; non-trivial = distinct (scenario, environment, secret) comparison")
+	run.Rule("environment alphabet: global math/rand seed in {1, 2, 0x5eed} x pinned clock in {T0, T0+1s} x scenario {key exchange, key exchange after creating another client, SRP answer, SRP answer after creating a client} x fault {none, the 1st / 2nd / 3rd read of the OS random source fails}; each environment is run twice and all runs are compared pairwise; a secret that repeats is a violation, and so is any 8-byte window of a nonce that occurs twice anywhere in the 12 consecutive exchanges of a group; non-trivial = distinct (scenario, environment, secret) comparison")
 	run.Assume("bytes from the OS source differ between runs with probability 1 - 2^-128, so a repeat is a reproducible derivation, not chance",
 		"LIMIT: this decides the property for the draw sites these drivers execute and for the reproducible inputs that are pinned (global math/rand state, the clock); a generator seeded from an input that is not pinned (pid, hostname) would pass, and paths no driver executes are not covered - provenance on all paths is a data-flow question outside this technique")
 	seeds := []int64{1, 2, 0x5eed}
@@ -114,6 +114,29 @@ func main() {
 							continue
 						}
 						all = append(all, obs{fmt.Sprintf("seed=%d clock=%d run=%d fail=%d", s, c/1e9, rep, fa), sec})
+					}
+				}
+			}
+			// pieces: every 8-byte window of every nonce, over all runs of this group (which follow each other in
+			// one process, so state kept between exchanges shows): no window may occur twice anywhere
+			type where struct {
+				run, off int
+				name     string
+			}
+			seenWin := map[string]where{}
+			for i, o := range all {
+				for _, name := range []string{"nonce", "new_nonce"} {
+					v := o.sec[name]
+					for off := 0; off+8 <= len(v); off++ {
+						k := string(v[off : off+8])
+						run.Eval(fmt.Sprintf("%s|fail=%d|window %s[%d:%d] of run %d", scn.name, fa, name, off, off+8, i), true)
+						if w, dup := seenWin[k]; dup {
+							run.Violation(fmt.Sprintf("repeats-partially|%s|%s", scn.name, name),
+								fmt.Sprintf("%s: bytes %d..%d of %s in exchange #%d [%s] equal bytes %d..%d of %s in exchange #%d [%s] (%x): part of the secret is not fresh from the OS random source",
+									scn.name, off, off+8, name, i, o.env, w.off, w.off+8, w.name, w.run, all[w.run].env, v[off:off+8]), map[string]any{"scenario": scn.name, "secret": name})
+						} else {
+							seenWin[k] = where{i, off, name}
+						}
 					}
 				}
 			}
